@@ -810,3 +810,31 @@ def n_r9_constructor_params(p: Project, rep: Report):
         return
     for x in params:
         rep.check("N-R9", f"__init__:{x}:stored", x in stored, f"the constructor accepts `{x}` and never stores it: the client keeps the class default whatever it was configured with" if x not in stored else "", loc(p, fn))
+
+
+def n_r11_url_fixed(p: Project, rep: Report):
+    """the configured endpoint is not replaced by what a profile advertises"""
+    rep.rule("N-R11", "the configured URL stays the configured URL: no method of OFXClient other than __init__ stores self.url (directly, in a chained assignment, by setattr with that name).  A URL taken from a profile is a routing decision for ONE request; written to self.url it becomes the address of every later profile request and of every request made with the profile lookup skipped, so the anonymous profile request no longer goes to the configured server")
+    ci = client_class(p)
+    n = 0
+    bad = None
+    unknown = None
+    for fn in [x for x in ci.node.body if isinstance(x, ast.FunctionDef) and x.name not in ("__init__", "__new__")]:
+        n += 1
+        for x in ast.walk(fn):
+            if isinstance(x, ast.Attribute) and x.attr == "url" and isinstance(x.ctx, (ast.Store, ast.Del)) and text(x.value) == "self":
+                bad = bad or (fn, x, text(x))
+            elif isinstance(x, ast.Call) and isinstance(x.func, ast.Name) and x.func.id == "setattr" and len(x.args) == 3 and text(x.args[0]) == "self":
+                if isinstance(x.args[1], ast.Constant):
+                    if x.args[1].value == "url":
+                        bad = bad or (fn, x, text(x))
+                else:
+                    unknown = unknown or (fn, x)
+            elif isinstance(x, ast.Call) and text(x.func) in ("self.__dict__.update", "vars(self).update"):
+                unknown = unknown or (fn, x)
+    if bad is not None:
+        rep.check("N-R11", f"OFXClient.{bad[0].name}:stores-self.url", False, f"{bad[0].name}() executes {bad[2][:60]}: the client's configured URL is overwritten at run time (with the service URL a profile advertises), so later requests that are to go to the configured URL - every profile request, and statement / account / tax requests with skip_profile - go elsewhere", f"{ci.mod.relpath}:{bad[1].lineno}")
+    elif unknown is not None:
+        rep.note(f"N-R11 undecided: OFXClient.{unknown[0].name} stores instance attributes under computed names ({text(unknown[1])[:50]})")
+    else:
+        rep.check("N-R11", "OFXClient:self.url-stored-only-by-__init__", True, f"{n} methods", f"{ci.mod.relpath}:{ci.node.lineno}")
